@@ -772,6 +772,11 @@ class _Formatter:
         if start_idx >= len(tokens):
             return False
         first = tokens[start_idx]
+        if first.type == DOLLARNAME and start_idx + 1 < len(tokens):
+            # ``$HOME/bin/tool a,b``: an environment variable with a path
+            # glued to it at the start of a statement names a command.
+            nxt = tokens[start_idx + 1]
+            return nxt.type == OP and nxt.string == "/" and nxt.start == first.end
         if first.type != NAME:
             return False
         if first.string in _LINE_START_PYTHON_NAMES:
